@@ -49,15 +49,15 @@ def fam_ring(n, dr):
 FAMILIES = {"gauss": fam_gauss, "bump": fam_bump, "ring": fam_ring}
 
 
-def ring_image(n, order2):
-    """anisotropic Gaussian ring (1 + b cos²θ) and its projection image (quadrature), full (2n-1)² image"""
+def ring_image(n, order2, b4=0.0, b6=0.0):
+    """anisotropic Gaussian ring (1 + b cos²θ + b4 cos⁴θ + b6 cos⁶θ) and its projection image (quadrature), full (2n-1)² image"""
     N = 2 * n - 1
     yy, xx = np.mgrid[:N, :N] - (n - 1)
     R = n - 1
     r0, w = 0.4 * R, R / 6
     rr = np.hypot(yy, xx)
     cos2 = np.divide(yy ** 2, rr ** 2, out=np.zeros_like(rr, dtype=float), where=rr > 0)
-    f = np.exp(-(rr - r0) ** 2 / w ** 2) * (1 + order2 * cos2)
+    f = np.exp(-(rr - r0) ** 2 / w ** 2) * (1 + order2 * cos2 + b4 * cos2 ** 2 + b6 * cos2 ** 3)
     x, wt = np.polynomial.legendre.leggauss(300)
     ax = np.abs(xx).astype(float)
     zmax = np.sqrt(np.maximum((r0 + 8 * w) ** 2 - ax ** 2 - yy ** 2, 0))
@@ -66,7 +66,7 @@ def ring_image(n, order2):
         z = 0.5 * zmax * (x[k] + 1)
         rho = np.sqrt(ax ** 2 + yy ** 2 + z ** 2)
         c2 = np.divide(yy ** 2, rho ** 2, out=np.zeros_like(rho), where=rho > 0)
-        P += 2 * 0.5 * zmax * wt[k] * np.exp(-(rho - r0) ** 2 / w ** 2) * (1 + order2 * c2)
+        P += 2 * 0.5 * zmax * wt[k] * np.exp(-(rho - r0) ** 2 / w ** 2) * (1 + order2 * c2 + b4 * c2 ** 2 + b6 * c2 ** 3)
     return f, P
 
 
@@ -83,7 +83,7 @@ def half_cases():
     for deg in (0, 1, 2, 3):
         add(f"daun/degree={deg}", abel.daun.daun_transform, dict(degree=deg, verbose=False), True)
     for reg in (("diff", 1.0), ("L2", 1.0), ("L2c", 1.0), "nonneg"):
-        add(f"daun/degree=1,reg={reg}", abel.daun.daun_transform, dict(degree=1, reg=reg, verbose=False), False)
+        add(f"daun/degree=1,reg={reg}", abel.daun.daun_transform, dict(degree=1, reg=reg, verbose=False), reg == "nonneg")
     add("hansenlaw/hold=0", abel.hansenlaw.hansenlaw_transform, dict(hold_order=0), True)
     add("hansenlaw/hold=1", abel.hansenlaw.hansenlaw_transform, dict(hold_order=1), True)
     add("direct/corr", lambda x, **k: abel.direct.direct_transform(x, backend="python", **k), dict(correction=True), True)
@@ -142,12 +142,16 @@ def measure(sizes, dr_values=(1.0,), with_images=True, nonneg_max_n=60, only=Non
                 zones = {"inner": slice(max(3, n // 10), i1), "ring": slice(i1, n - max(3, n // 8))}
 
                 def err(rec, ref, oy=c0, ox=c0):
-                    """max error on the horizontal and the vertical cut from the origin, per zone, relative to the peak"""
+                    """max error on the rays right / down / diagonal from the origin, per zone (radius), relative to the peak"""
                     e = {}
                     for z, sl in zones.items():
-                        h = np.abs(rec[oy, ox:ox + n] - ref[c0, c0:])[sl].max()
-                        v = np.abs(rec[oy:oy + n, ox] - ref[c0:, c0])[sl].max()
-                        e[z] = float(max(h, v) / ref.max())
+                        ks = np.arange(n)[sl]
+                        kd = np.unique(np.round(ks / np.sqrt(2)).astype(int))
+                        kd = kd[(kd > 0) & (oy + kd < rec.shape[0]) & (ox + kd < rec.shape[1])]
+                        h = np.abs(rec[oy, ox + ks] - ref[c0, c0 + ks]).max()
+                        v = np.abs(rec[oy + ks, ox] - ref[c0 + ks, c0]).max()
+                        d = np.abs(rec[oy + kd, ox + kd] - ref[c0 + kd, c0 + kd]).max() if len(kd) else 0.0
+                        e[z] = float(max(h, v, d) / ref.max())
                     return e
 
                 def put(direction, key, e):
@@ -184,6 +188,54 @@ def measure(sizes, dr_values=(1.0,), with_images=True, nonneg_max_n=60, only=Non
                         put("inverse", key, err(rec, src))
                     except Exception as e:
                         out[f"{direction or 'inverse'}|{key}|zone=ring|n={n}"] = f"exc:{type(e).__name__}"
+        # higher angular orders: cos⁴ and cos⁶ content (so that a wrong or missing power shows), centred and off-centre frames,
+        # out='same' and 'full', lower order first on the same frame; linbasex with an outer radius that radial_step does not divide
+        for n in [s for s in sizes if s <= 51]:
+            src, proj = ring_image(n, 0.8, -0.6, 0.5)
+            c0 = n - 1
+            i1 = int(round((0.4 - 1 / 6) * (n - 1)))
+            zones = {"ring": slice(i1, n - max(3, n // 8))}
+
+            def err3(rec, ref, oy=c0, ox=c0):
+                ks = np.arange(n)[zones["ring"]]
+                kd = np.unique(np.round(ks / np.sqrt(2)).astype(int))
+                kd = kd[(kd > 0) & (oy + kd < rec.shape[0]) & (ox + kd < rec.shape[1])]
+                return float(max(np.abs(rec[oy, ox + ks] - ref[c0, c0 + ks]).max(), np.abs(rec[oy + ks, ox] - ref[c0 + ks, c0]).max(),
+                                 np.abs(rec[oy + kd, ox + kd] - ref[c0 + kd, c0 + kd]).max()) / ref.max())
+            oy, ox = c0 - 4, c0 - 2
+            seqs = [("centred", dict(), proj, src, c0, c0, c0, c0),
+                    ("offset-same", dict(origin=(oy, ox)), proj[4:, 2:], src[4:, 2:], oy, ox, oy, ox),
+                    ("offset-full", dict(origin=(oy, ox), out="full"), proj[4:, 2:], src[4:, 2:], None, None, oy, ox)]
+            for tag, kw, P_, S_, ry, rx, _, _ in seqs:
+                for order in (2, 6):                          # the order-2 call first: a stale cache from it must not leak
+                    key = f"rbasex/order={order},{tag}|ring_hi"
+                    try:
+                        if direction != "forward":
+                            rec = quiet(abel.rbasex.rbasex_transform, P_, order=order, **kw)[0]
+                            yy0, xx0 = (rec.shape[0] // 2, rec.shape[1] // 2) if ry is None else (ry, rx)
+                            if order == 6:
+                                out[f"inverse|{key}|zone=ring|n={n}"] = err3(rec, src, yy0, xx0)
+                        if direction != "inverse":
+                            fw = quiet(abel.rbasex.rbasex_transform, S_, order=order, direction="forward", **kw)[0]
+                            yy0, xx0 = (fw.shape[0] // 2, fw.shape[1] // 2) if ry is None else (ry, rx)
+                            if order == 6:
+                                out[f"forward|{key}|zone=ring|n={n}"] = err3(fw, proj, yy0, xx0)
+                    except Exception as e:
+                        out[f"{direction or 'inverse'}|{key}|zone=ring|n={n}"] = f"exc:{type(e).__name__}"
+        if direction != "forward":
+            for n in [s + 1 for s in sizes if s <= 51]:          # even n: outer radius R = n − 1 is odd
+                src, proj = ring_image(n, 0.0)
+                c0 = n - 1
+                i1 = int(round((0.4 - 1 / 6) * (n - 1)))
+                sl = slice(i1, n - max(3, n // 8))
+                for step in (2, 3):
+                    key = f"linbasex/orders=[0, 2],angles=2,step={step},R-odd|ring_b=0.0"
+                    try:
+                        rec = quiet(abel.linbasex.linbasex_transform_full, proj, radial_step=step)[0]
+                        out[f"inverse|{key}|zone=ring|n={n}"] = float(max(np.abs(rec[c0, c0:] - src[c0, c0:])[sl].max(),
+                                                                          np.abs(rec[c0:, c0] - src[c0:, c0])[sl].max()) / src.max())
+                    except Exception as e:
+                        out[f"inverse|{key}|zone=ring|n={n}"] = f"exc:{type(e).__name__}"
     if with_transform:
         # whole images through abel.Transform: every quadrant is transformed (no symmetrisation), so quadrant-dependent and
         # call-history-dependent errors (memory-cache hits within one call) are visible; 2-D Gaussian, closed form
@@ -341,9 +393,18 @@ def measure_random(rng, count, direction, nonneg_max_n=60):
         sl = region(n)
         a, b = (proj, src) if direction == "inverse" else (src, proj)
         rec = dict(method=name, fam=kind, n=n, dr=dr, rows=rows, params=par)
+        data = amp * a[None, :]
+        if rng.random() < 0.15 and not name.startswith("direct"):          # detector counts: an integer image means its float values
+            data = np.round(data * 1e9).astype(np.int64)
+            amp = amp * 1e9
+            rec["dtype"] = "int64"
         try:
-            got = np.atleast_2d(quiet(f, amp * a[None, :], direction=direction, dr=dr, **opts))
+            got = np.atleast_2d(quiet(f, data, direction=direction, dr=dr, **opts))
             rec["error"] = float((np.abs(got - amp * b[None, :]) / amp)[:, sl].max() / np.abs(b).max())
+        except TypeError as e:
+            if rec.get("dtype") == "int64":
+                continue                    # refusing an integer array loudly (numpy casting error) is not an accuracy defect
+            rec["error"] = f"exc:{type(e).__name__}: {e}"
         except Exception as e:
             rec["error"] = f"exc:{type(e).__name__}: {e}"
         out.append(rec)
